@@ -17,7 +17,8 @@ type Case struct {
 	Level int
 	Ops   []Op
 	Msg   []byte
-	Fin   int // 0 Msg 1 Send(only with empty msg) 2 Msgf 3 MsgFunc
+	Fin   int      // 0 Msg 1 Send(only with empty msg) 2 Msgf 3 MsgFunc
+	Pre   *Prelude // filtered events started before this one (not part of the model's case)
 }
 
 type Gen struct {
